@@ -469,6 +469,13 @@ fn run_routing(c: &RCase) -> Verdict {
 pub struct BCase {
     cfg: CfgPick,
     peers: Vec<Cand>,
+    /// Some(g): the join rate limiter is binding - a global burst of g joins, no refill worth mentioning - so some
+    /// candidates are refused by the *other* gate of add_peer; such a refusal must consume no diversity slot
+    #[serde(default)]
+    global_burst: Option<u8>,
+    /// Some(n): at most n joins per IPv4 /24 (and /64) per hour
+    #[serde(default)]
+    per_subnet: Option<u8>,
 }
 fn run_bootstrap(c: &BCase) -> Verdict {
     let rt = tokio::runtime::Builder::new_current_thread().enable_all().build().unwrap();
@@ -477,7 +484,22 @@ fn run_bootstrap(c: &BCase) -> Verdict {
         let cfg = cfg_of(&c.cfg);
         let dir = tempfile::tempdir().unwrap();
         let big = 1_000_000;
-        let bc = BootstrapConfig { cache_dir: dir.path().to_path_buf(), max_peers: 1000, epsilon: 0.1, rate_limit: JoinRateLimiterConfig { max_joins_per_64_per_hour: big, max_joins_per_48_per_hour: big, max_joins_per_24_per_hour: big, max_global_joins_per_minute: big, global_burst_size: big }, diversity: cfg.clone() };
+        let sub = c.per_subnet.map(|n| 1 + n as u32 % 4).unwrap_or(big);
+        let bc = BootstrapConfig {
+            cache_dir: dir.path().to_path_buf(),
+            max_peers: 1000,
+            epsilon: 0.1,
+            rate_limit: JoinRateLimiterConfig {
+                max_joins_per_64_per_hour: sub,
+                max_joins_per_48_per_hour: big,
+                max_joins_per_24_per_hour: sub,
+                max_global_joins_per_minute: if c.global_burst.is_some() { 1 } else { big },
+                global_burst_size: c.global_burst.map(|g| 1 + g as u32 % 6).unwrap_or(big),
+            },
+            diversity: cfg.clone(),
+        };
+        let limiter_binding = c.global_burst.is_some() || c.per_subnet.is_some();
+        let mut limiter_refusals = 0u64;
         let mgr = match BootstrapManager::with_config(bc).await {
             Ok(m) => m,
             Err(e) => {
@@ -499,6 +521,13 @@ fn run_bootstrap(c: &BCase) -> Verdict {
             pid[31] = 0x13;
             let res = mgr.add_peer(hex::encode(pid), vec![SocketAddr::new(ip, 9000)]).await;
             let block = m.can_accept(&cfg, ip, None, false);
+            // add_peer has two gates that answer with the same error variant; the join rate limiter's refusals are
+            // told from the diversity gate's by their text. A limiter refusal is no admission: the model stays.
+            let by_limiter = limiter_binding && res.as_ref().err().map(|e| !e.to_string().to_lowercase().contains("diversity")).unwrap_or(false);
+            if by_limiter {
+                limiter_refusals += 1;
+                continue;
+            }
             match (res.is_ok(), block) {
                 (true, Some(level)) => v.fail(format!("{ID}/BootstrapManager::add_peer/admitted-at-or-above-cap/{level}"), format!("peer #{i} {ip}: levels {:?}", m.levels(&cfg, ip, None, false))),
                 (false, None) => v.fail(format!("{ID}/BootstrapManager::add_peer/refused-although-every-level-is-below-cap/{}", if ip.is_ipv4() { "ipv4" } else { "ipv6" }), format!("peer #{i} {ip}: levels {:?}: {}", m.levels(&cfg, ip, None, false), res.err().map(|e| e.to_string()).unwrap_or_default())),
@@ -509,7 +538,10 @@ fn run_bootstrap(c: &BCase) -> Verdict {
                 break;
             }
         }
-        v.nt(capped);
+        v.nt(capped || limiter_refusals > 0);
+        if limiter_refusals > 0 {
+            v.class("some_joins_refused_by_the_rate_limiter");
+        }
         v
     })
 }
@@ -534,7 +566,7 @@ pub fn run(run: &Run) {
     run.assume("core-engine and bootstrap paths have no GeoIP source, so ASN/hosting attributes are exercised on the enforcer sub-check only");
     run.set_rule("enforcer", "config (default/testnet/permissive/random caps 1..5) × history of analyse+add / can_accept / remove / set_network_size over IPv4+IPv6 addresses from nested prefix pools with ASN/hosting/VPN attributes; reference counters compared after every step; non-trivial = some level reached its cap and a removal followed");
     run.set_rule("routing", "add / evict / failure histories on a LogOnly DhtCoreEngine with addresses rendered as ip:port, bare ip, or NetworkAddress::to_string(); ids in 6 buckets so buckets fill; counters read through the verif accessor; non-trivial = cap reached then a removal");
-    run.set_rule("bootstrap", "BootstrapManager::add_peer (rate limits made non-binding) over IPv4/IPv6 peers; non-trivial = a cap was reached");
+    run.set_rule("bootstrap", "BootstrapManager::add_peer over IPv4/IPv6 peers with the join rate limiter non-binding, or binding (a global burst of 1..6 joins and/or 1..4 joins per /24 and /64 per hour): a join refused by the limiter must consume no diversity slot, every other verdict must match the reference counters; non-trivial = a cap was reached or the limiter refused a join");
     let sh = shards_for(run.tier);
     let len = run.tier.pick(80usize, 1500);
     let eop = prop_oneof![10 => cand().prop_map(EOp::Add), 2 => cand().prop_map(EOp::Query), 4 => any::<u16>().prop_map(EOp::Remove), 1 => prop_oneof![Just(0u32), 0u32..2000, Just(100_000u32)].prop_map(EOp::SetSize)];
@@ -546,7 +578,7 @@ pub fn run(run: &Run) {
     let rcase = prop::collection::vec(rop, 1..run.tier.pick(60usize, 400)).prop_map(|ops| RCase { ops });
     run.prop("routing", run.tier.pick(12500, 80000), sh, rcase, run_routing);
 
-    let bcase = (cfg_pick(), prop::collection::vec(cand(), 1..run.tier.pick(30usize, 120))).prop_map(|(cfg, peers)| BCase { cfg, peers });
+    let bcase = (cfg_pick(), prop::collection::vec(cand(), 1..run.tier.pick(30usize, 120)), prop::option::weighted(0.3, any::<u8>()), prop::option::weighted(0.3, any::<u8>())).prop_map(|(cfg, peers, global_burst, per_subnet)| BCase { cfg, peers, global_burst, per_subnet });
     run.prop("bootstrap", run.tier.pick(3750, 15000), sh, bcase, run_bootstrap);
 }
 
